@@ -119,6 +119,27 @@ func rootsOf(v ssa.Value) []memRoot {
 					}
 					return
 				}
+				// a pointer-like value loaded out of a local struct/array object: its provenance is whatever was
+				// stored into that object (a struct copied from elsewhere carries the other object's pointers)
+				if al, fld := allocRootOfAddr(x.X); al != nil && isPointerLike(x.Type()) {
+					found := false
+					for _, st := range storesInto(al) {
+						if st.Addr == al {
+							found = true
+							walk(st.Val)
+							continue
+						}
+						if f2, _ := fieldOfAddr(st.Addr); fld != nil && f2 != nil && f2 != fld {
+							continue
+						}
+						found = true
+						walk(st.Val)
+					}
+					if !found {
+						add(memRoot{Kind: rkLocal, Val: al})
+					}
+					return
+				}
 				walk(x.X)
 			} else {
 				add(memRoot{Kind: rkConst})
@@ -797,4 +818,57 @@ func (e *effects) fnTargetsAt(site ssa.CallInstruction) []*ssa.Function {
 		return out
 	}
 	return e.funcValueTargets(site.Common().Value)
+}
+
+// allocRootOfAddr: the local object an address chain (fields/elements, no loads) is rooted at, and the outermost field.
+func allocRootOfAddr(a ssa.Value) (*ssa.Alloc, *types.Var) {
+	var fld *types.Var
+	for i := 0; i < 8; i++ {
+		switch x := a.(type) {
+		case *ssa.FieldAddr:
+			f, _ := fieldOfAddr(x)
+			fld = f
+			a = x.X
+			continue
+		case *ssa.IndexAddr:
+			a = x.X
+			continue
+		case *ssa.Alloc:
+			if allocIsObject(x) {
+				return x, fld
+			}
+			return nil, nil
+		}
+		break
+	}
+	return nil, nil
+}
+
+// storesInto: stores whose address lies within the local object al (the object itself, its fields or elements).
+func storesInto(al *ssa.Alloc) []*ssa.Store {
+	var out []*ssa.Store
+	var visit func(v ssa.Value, d int)
+	visit = func(v ssa.Value, d int) {
+		if d > 4 {
+			return
+		}
+		refs := v.Referrers()
+		if refs == nil {
+			return
+		}
+		for _, r := range *refs {
+			switch x := r.(type) {
+			case *ssa.Store:
+				if x.Addr == v {
+					out = append(out, x)
+				}
+			case *ssa.FieldAddr:
+				visit(x, d+1)
+			case *ssa.IndexAddr:
+				visit(x, d+1)
+			}
+		}
+	}
+	visit(al, 0)
+	return out
 }
